@@ -116,7 +116,7 @@ func (r *RNN) Apply(inputs []tensor.Tensor) ([]tensor.Tensor, error) {
 	// Loop over all timesteps of the input, applying the RNN calculation to every
 	// timesteps while updating the hidden tensor.
 	for t := 0; t < seqLength; t++ {
-		Xt, err := X.Slice(ops.NewSlicer(t, t+1), nil, nil)
+		Xt, err := ops.ExtractTimeStep(X, t)
 		if err != nil {
 			return nil, err
 		}
